@@ -933,144 +933,143 @@ impl Storage {
         let mut batch = self.batch();
 
         for ss in scripts {
-            if ss.block_number >= to_number {
-                let script = ss.script;
-                let mut key_prefix = vec![match ss.script_type {
-                    ScriptType::Lock => KeyPrefix::TxLockScript as u8,
-                    ScriptType::Type => KeyPrefix::TxTypeScript as u8,
-                }];
-                key_prefix.extend_from_slice(&extract_raw_data(&script));
-                let mut start_key = key_prefix.clone();
-                start_key.extend_from_slice(BlockNumber::MAX.to_be_bytes().as_ref());
-                let mode = IteratorMode::From(start_key.as_ref(), Direction::Reverse);
-                let key_prefix_len = key_prefix.len();
+            // Do NOT skip a script by its block number: its records may go beyond that number when
+            // the process exited after a block was filtered but before the number was updated.
+            let script = ss.script;
+            let mut key_prefix = vec![match ss.script_type {
+                ScriptType::Lock => KeyPrefix::TxLockScript as u8,
+                ScriptType::Type => KeyPrefix::TxTypeScript as u8,
+            }];
+            key_prefix.extend_from_slice(&extract_raw_data(&script));
+            let mut start_key = key_prefix.clone();
+            start_key.extend_from_slice(BlockNumber::MAX.to_be_bytes().as_ref());
+            let mode = IteratorMode::From(start_key.as_ref(), Direction::Reverse);
+            let key_prefix_len = key_prefix.len();
 
-                self.db
-                    .iterator(mode)
-                    .take_while(|(key, _value)| key.starts_with(&key_prefix))
-                    // Skip the keys of other scripts which have the same code hash and hash type,
-                    // and their args start with the args of this script.
-                    .filter(|(key, _value)| key.len() == key_prefix_len + 17)
-                    .take_while(|(key, _value)| {
-                        BlockNumber::from_be_bytes(
-                            key[key_prefix_len..key_prefix_len + 8]
-                                .try_into()
-                                .expect("stored BlockNumber"),
-                        ) >= to_number
-                    })
-                    .for_each(|(key, value)| {
-                        let block_number = BlockNumber::from_be_bytes(
-                            key[key_prefix_len..key_prefix_len + 8]
-                                .try_into()
-                                .expect("stored BlockNumber"),
-                        );
-                        log::debug!("rollback {}", block_number);
-                        let tx_index = TxIndex::from_be_bytes(
-                            key[key_prefix_len + 8..key_prefix_len + 12]
-                                .try_into()
-                                .expect("stored TxIndex"),
-                        );
-                        let cell_index = CellIndex::from_be_bytes(
-                            key[key_prefix_len + 12..key_prefix_len + 16]
-                                .try_into()
-                                .expect("stored CellIndex"),
-                        );
-                        let tx_hash =
-                            packed::Byte32Reader::from_slice_should_be_ok(&value).to_entity();
-                        if key[key_prefix_len + 16] == 0 {
-                            let (_, _, tx) = self
-                                .get_transaction(&tx_hash)
-                                .expect("stored transaction history");
-                            let input = tx.raw().inputs().get(cell_index as usize).unwrap();
-                            if let Some((
-                                generated_by_block_number,
-                                generated_by_tx_index,
-                                _previous_tx,
-                            )) = self.get_transaction(&input.previous_output().tx_hash())
-                            {
-                                let key = match ss.script_type {
-                                    ScriptType::Lock => Key::CellLockScript(
-                                        &script,
-                                        generated_by_block_number,
-                                        generated_by_tx_index,
-                                        input.previous_output().index().unpack(),
-                                    ),
-                                    ScriptType::Type => Key::CellTypeScript(
-                                        &script,
-                                        generated_by_block_number,
-                                        generated_by_tx_index,
-                                        input.previous_output().index().unpack(),
-                                    ),
-                                };
-                                batch
-                                    .put_kv(key, input.previous_output().tx_hash().as_slice())
-                                    .expect("batch put should be ok");
+            self.db
+                .iterator(mode)
+                .take_while(|(key, _value)| key.starts_with(&key_prefix))
+                // Skip the keys of other scripts which have the same code hash and hash type,
+                // and their args start with the args of this script.
+                .filter(|(key, _value)| key.len() == key_prefix_len + 17)
+                .take_while(|(key, _value)| {
+                    BlockNumber::from_be_bytes(
+                        key[key_prefix_len..key_prefix_len + 8]
+                            .try_into()
+                            .expect("stored BlockNumber"),
+                    ) >= to_number
+                })
+                .for_each(|(key, value)| {
+                    let block_number = BlockNumber::from_be_bytes(
+                        key[key_prefix_len..key_prefix_len + 8]
+                            .try_into()
+                            .expect("stored BlockNumber"),
+                    );
+                    log::debug!("rollback {}", block_number);
+                    let tx_index = TxIndex::from_be_bytes(
+                        key[key_prefix_len + 8..key_prefix_len + 12]
+                            .try_into()
+                            .expect("stored TxIndex"),
+                    );
+                    let cell_index = CellIndex::from_be_bytes(
+                        key[key_prefix_len + 12..key_prefix_len + 16]
+                            .try_into()
+                            .expect("stored CellIndex"),
+                    );
+                    let tx_hash = packed::Byte32Reader::from_slice_should_be_ok(&value).to_entity();
+                    if key[key_prefix_len + 16] == 0 {
+                        let (_, _, tx) = self
+                            .get_transaction(&tx_hash)
+                            .expect("stored transaction history");
+                        let input = tx.raw().inputs().get(cell_index as usize).unwrap();
+                        if let Some((
+                            generated_by_block_number,
+                            generated_by_tx_index,
+                            _previous_tx,
+                        )) = self.get_transaction(&input.previous_output().tx_hash())
+                        {
+                            let key = match ss.script_type {
+                                ScriptType::Lock => Key::CellLockScript(
+                                    &script,
+                                    generated_by_block_number,
+                                    generated_by_tx_index,
+                                    input.previous_output().index().unpack(),
+                                ),
+                                ScriptType::Type => Key::CellTypeScript(
+                                    &script,
+                                    generated_by_block_number,
+                                    generated_by_tx_index,
+                                    input.previous_output().index().unpack(),
+                                ),
                             };
-                            // delete tx history
-                            let key = match ss.script_type {
-                                ScriptType::Lock => Key::TxLockScript(
-                                    &script,
-                                    block_number,
-                                    tx_index,
-                                    cell_index,
-                                    CellType::Input,
-                                ),
-                                ScriptType::Type => Key::TxTypeScript(
-                                    &script,
-                                    block_number,
-                                    tx_index,
-                                    cell_index,
-                                    CellType::Input,
-                                ),
-                            }
-                            .into_vec();
-                            batch.delete(key).expect("batch delete should be ok");
-                        } else {
-                            // delete utxo
-                            let key = match ss.script_type {
-                                ScriptType::Lock => {
-                                    Key::CellLockScript(&script, block_number, tx_index, cell_index)
-                                }
-                                ScriptType::Type => {
-                                    Key::CellTypeScript(&script, block_number, tx_index, cell_index)
-                                }
-                            }
-                            .into_vec();
-                            batch.delete(key).expect("batch delete should be ok");
-
-                            // delete tx history
-                            let key = match ss.script_type {
-                                ScriptType::Lock => Key::TxLockScript(
-                                    &script,
-                                    block_number,
-                                    tx_index,
-                                    cell_index,
-                                    CellType::Output,
-                                ),
-                                ScriptType::Type => Key::TxTypeScript(
-                                    &script,
-                                    block_number,
-                                    tx_index,
-                                    cell_index,
-                                    CellType::Output,
-                                ),
-                            }
-                            .into_vec();
-                            batch.delete(key).expect("batch delete should be ok");
+                            batch
+                                .put_kv(key, input.previous_output().tx_hash().as_slice())
+                                .expect("batch put should be ok");
                         };
-                    });
+                        // delete tx history
+                        let key = match ss.script_type {
+                            ScriptType::Lock => Key::TxLockScript(
+                                &script,
+                                block_number,
+                                tx_index,
+                                cell_index,
+                                CellType::Input,
+                            ),
+                            ScriptType::Type => Key::TxTypeScript(
+                                &script,
+                                block_number,
+                                tx_index,
+                                cell_index,
+                                CellType::Input,
+                            ),
+                        }
+                        .into_vec();
+                        batch.delete(key).expect("batch delete should be ok");
+                    } else {
+                        // delete utxo
+                        let key = match ss.script_type {
+                            ScriptType::Lock => {
+                                Key::CellLockScript(&script, block_number, tx_index, cell_index)
+                            }
+                            ScriptType::Type => {
+                                Key::CellTypeScript(&script, block_number, tx_index, cell_index)
+                            }
+                        }
+                        .into_vec();
+                        batch.delete(key).expect("batch delete should be ok");
 
-                // update script filter block number
-                {
-                    let mut key = Key::Meta(FILTER_SCRIPTS_KEY).into_vec();
-                    key.extend_from_slice(script.as_slice());
-                    key.extend_from_slice(match ss.script_type {
-                        ScriptType::Lock => &[0],
-                        ScriptType::Type => &[1],
-                    });
-                    let value = to_number.to_be_bytes().to_vec();
-                    batch.put(key, value).expect("batch put should be ok");
-                }
+                        // delete tx history
+                        let key = match ss.script_type {
+                            ScriptType::Lock => Key::TxLockScript(
+                                &script,
+                                block_number,
+                                tx_index,
+                                cell_index,
+                                CellType::Output,
+                            ),
+                            ScriptType::Type => Key::TxTypeScript(
+                                &script,
+                                block_number,
+                                tx_index,
+                                cell_index,
+                                CellType::Output,
+                            ),
+                        }
+                        .into_vec();
+                        batch.delete(key).expect("batch delete should be ok");
+                    };
+                });
+
+            // update script filter block number
+            if ss.block_number >= to_number {
+                let mut key = Key::Meta(FILTER_SCRIPTS_KEY).into_vec();
+                key.extend_from_slice(script.as_slice());
+                key.extend_from_slice(match ss.script_type {
+                    ScriptType::Lock => &[0],
+                    ScriptType::Type => &[1],
+                });
+                let value = to_number.to_be_bytes().to_vec();
+                batch.put(key, value).expect("batch put should be ok");
             }
         }
 
